@@ -58,9 +58,11 @@ def scope_stacks(sealed_stack, writable_stack):
 def gen_config(rng):
   r = rng.random()
   cfg = {'obj': 'none', 'acc_flag': None, 'sealed_stack': [], 'writable_stack': []}
-  if r < 0.35:
+  if r < 0.28:
     cfg['obj'] = 'sealed'
-  elif r < 0.45:
+  elif r < 0.40:
+    cfg['obj'] = 'sealed-at-construction'
+  elif r < 0.48:
     cfg['obj'] = 'sealed-then-unsealed'
   if rng.random() < 0.45:
     cfg['sealed_stack'] = [rng.choice([True, False, None])
@@ -99,6 +101,21 @@ def containers_of(step, root):
   if step['op'] == 'rebind':
     return [O.node_at(node, rel[:-1]) for rel, _ in step['args']['updates']]
   return [node]
+
+
+def detached(v):
+  return v.clone(deep=True) if isinstance(v, pg.Symbolic) else v
+
+
+def construct_sealed(node):
+  """A copy of `node` that is sealed by its constructor (`sealed=True`), not by
+  a later seal() call."""
+  if isinstance(node, pg.Object):
+    return type(node)(sealed=True,
+                      **{k: detached(v) for k, v in node.sym_init_args.sym_items()})
+  if isinstance(node, pg.Dict):
+    return pg.Dict({k: detached(v) for k, v in node.sym_items()}, sealed=True)
+  return pg.List([detached(v) for v in node.sym_values()], sealed=True)
 
 
 def cases(ctx):
@@ -145,6 +162,31 @@ def run_case(ctx, i):
       root = D.build(desc)
       pnode = D.resolve([root], 0, ppath)
       target = D.resolve([root], 0, step['at'][1])
+      if cfg['obj'] == 'sealed-at-construction':
+        if isinstance(pnode, pg.Ref):
+          cfg['obj'] = 'sealed'
+        else:
+          ctx.label = 'construct-sealed'
+          new_p = construct_sealed(pnode)
+          if ppath:
+            parent = D.resolve([root], 0, ppath[:-1])
+            with pg.allow_writable_accessors(True):
+              parent.rebind({ppath[-1]: new_p}, raise_on_no_change=False)
+          else:
+            root = new_p
+          ctx.label = None
+          pnode = D.resolve([root], 0, ppath)
+          target = D.resolve([root], 0, step['at'][1])
+          c['deep_seal_checks'] += 1
+          c['sealed_at_construction'] += 1
+          unsealed = [ks for n, ks in TM.nodes_of(pnode) if not n.is_sealed]
+          if pnode is not new_p:
+            c['sealed_node_copied_on_insert'] += 1
+          elif unsealed:
+            ctx.violation('seal-not-deep', type(pnode).__name__ + '@construction',
+                          f'{type(pnode).__name__}(..., sealed=True): descendants '
+                          f'{unsealed[:5]} are not sealed',
+                          {'tree': D.show(desc), 'protected': ppath})
       if cfg['obj'] in ('sealed', 'sealed-then-unsealed'):
         pnode.seal()
         c['deep_seal_checks'] += 1
@@ -165,7 +207,10 @@ def run_case(ctx, i):
           n.set_accessor_writable(cfg['acc_flag'])
       conts = containers_of(step, root)
       sc = innermost(cfg['sealed_stack'])
-      eff_sealed = sc if sc is not None else any(n.is_sealed for n in conts)
+      # Every target is at or below the protected node, so whether it is sealed
+      # follows from the configuration (not from the flags the library reports).
+      model_sealed = cfg['obj'] in ('sealed', 'sealed-at-construction')
+      eff_sealed = sc if sc is not None else model_sealed
       wc = innermost(cfg['writable_stack'])
       eff_writable = wc if wc is not None else all(n.accessor_writable for n in conts)
       r_before = js(root)
